@@ -5,7 +5,7 @@
    model of Model.v / ModelSparse.v.  All statements hold for every header,
    every index in Z and every finite composition of view constructors. *)
 From Coq Require Import ZArith List Bool.
-From ADV Require Import C10.Gen C10.Model C10.ModelSparse C10.Spec C10.ProofsIndex C10.ProofsViews C10.ProofsIter C10.ProofsOps C10.ProofsTip C10.ProofsSparse.
+From ADV Require Import C10.Gen C10.Model C10.ModelSparse C10.Spec C10.ProofsIndex C10.ProofsViews C10.ProofsIter C10.ProofsIterSkip C10.ProofsOps C10.ProofsTip C10.ProofsTipGen C10.ProofsOpsView C10.ProofsSparse C10.ProofsSparseT.
 Import ListNotations.
 Open Scope Z_scope.
 
@@ -153,17 +153,34 @@ Theorem const_row_col_segment : forall V (h : DenseMatrix V) i t,
      exists k0, DenseP.index h 0 i = Some k0 /\ DenseP.index h t i = Some (k0 + t)).
 Proof. intros V h i t. split; [apply row_contiguous | apply col_contiguous]. Qed.
 
-(* ---- 4. the dense iterator (translated Ok / next / Index) visits the view in row-major order, once each ----
-   [walk] is  for it := {m,0,-1}.next(); it.Ok(); it.next() { it.Index() } ;  position number t of the
-   enumeration is (t / cols, t mod cols).  The zero-skipping loop that Next() wraps around next()
-   (it_skip in Model.v) is tied by the correspondence run, not by this theorem. *)
-Theorem iterator_row_major_partial : forall V (h : DenseMatrix V) fuel, 0 <= d_rows h -> 0 <= d_cols h ->
+(* ---- 4. the dense iterator visits the view in row-major order, once each ----
+   [walk] is  for it := {m,0,-1}.next(); it.Ok(); it.next() { it.Index() } : the translated kernels alone. *)
+Theorem iterator_walk_row_major : forall V (h : DenseMatrix V) fuel, 0 <= d_rows h -> 0 <= d_cols h ->
   (Z.to_nat (d_rows h * d_cols h) < fuel)%nat ->
-  walk fuel (DenseP.it_next (mkDenseIter h 0 (-1))) = row_major_lin (d_rows h) (d_cols h).
-Proof. intros V h. exact (iterator_row_major h). Qed.
-Theorem row_major_lin_is_nested_loop_order_upto12 :
-  forallb (fun p => pos_eqb (row_major_lin (fst p) (snd p)) (row_major (fst p) (snd p))) (positions 13 13) = true.
-Proof. exact row_major_lin_is_nested_loop_upto12. Qed.
+  walk fuel (DenseP.it_next (mkDenseIter h 0 (-1))) = row_major (d_rows h) (d_cols h).
+Proof.
+  intros V h fuel Hr Hc Hf. unfold row_major. rewrite <- row_major_lin_eq by assumption.
+  exact (iterator_row_major h fuel Hr Hc Hf).
+Qed.
+(* the linear enumeration t |-> (t / cols, t mod cols) is the nested-loop order, for every shape *)
+Theorem row_major_lin_is_nested_loop_order : forall n m, 0 <= n -> 0 <= m -> row_major_lin n m = row_major n m.
+Proof. exact row_major_lin_eq. Qed.
+(* ConstIterator() / Iterator() as coded, INCLUDING the zero-skipping loop Next() wraps around next():
+   the loop  for it := m.ConstIterator(); it.Ok(); it.Next() { i, j := it.Index(); v := it.GetConst() }
+   reports exactly the in-view positions holding a NON-ZERO element, in row-major order, once each, with the
+   element read through the view; ConstIteratorFrom(i,j) / IteratorFrom(i,j) likewise from position (i,j) on.
+   For every well-formed view (any composition of Slice / T), every storage content. *)
+Theorem iterator_enumerates_nonzero_row_major : forall real H (m : mat), wf_in H m ->
+  mIterate real H m 0 0 = ROk (report real H m (row_major (d_rows m) (d_cols m))) /\
+  forall i j, in_range m i j ->
+    mIterate real H m i j = ROk (report real H m (skipn (Z.to_nat (i * d_cols m + j)) (row_major (d_rows m) (d_cols m)))).
+Proof. intros real H m W. split; [exact (iterate_all real H m W) | exact (iterate_from real H m W)]. Qed.
+Example iterator_skip_nontrivial :
+  let H := [[1; 2; 3; 4; 0; 6; 7; 8; 9]] in
+  let m := apply_views false (new_mat 0 3 3) [VT; VSlice 0 2 1 3] in
+  wf_in H m /\ mIterate false H m 0 0 = ROk [0; 0; 4; 0; 1; 7; 1; 1; 8] /\
+  report false H m (row_major 2 2) = [0; 0; 4; 0; 1; 7; 1; 1; 8].
+Proof. cbv. repeat split; try discriminate; reflexivity. Qed.
 Example iterator_nontrivial :
   walk 10 (DenseP.it_next (mkDenseIter (DenseP.T (DenseP.SLICE (new_mat 0 4 5) 1 3 2 5)) 0 (-1)))
   = [(0, 0); (0, 1); (1, 0); (1, 1); (2, 0); (2, 1)].
@@ -190,11 +207,80 @@ Example reset_on_view_nontrivial :
   wf_in H m /\ opt_of (H' <- mReset false H m ;; ROk (store_of H' 0)) = Some [1; 0; 0; 4; 5; 0; 0; 8; 9; 10; 11; 12].
 Proof. cbv. repeat split; try discriminate; reflexivity. Qed.
 
+(* ---- 6b. read-only / arithmetic operations on a view = the operation on an independent deep copy ----
+   for EVERY well-formed view: element reads, Row / Col / Diag (also on nested views), MdotV / VdotM, String / Table,
+   Export, IsSymmetric, MarshalJSON (both branches), the iterators; AsVector is right on the copy (whole storage). *)
+Theorem op_on_view_equals_op_on_copy : forall real H (m : mat), wf_in H m ->
+  exists H' c, deep_copy real H m = ROk (H', c) /\ d_values c <> d_values m /\ whole c /\ wf_in H' c /\
+    (forall l, (l < length H)%nat -> store_of H' l = store_of H l) /\
+    (d_rows c, d_cols c) = (d_rows m, d_cols m) /\
+    (forall i j, mAT real H m i j = mAT real H' c i j) /\
+    read_all real H m = read_all real H' c /\
+    (forall i, mROW real H m i = mROW real H' c i) /\
+    (forall j, mCOL real H m j = mCOL real H' c j) /\
+    mDIAG real H m = mDIAG real H' c /\
+    (forall rlen b, mMdotV real H rlen m b = mMdotV real H' rlen c b) /\
+    (forall rlen a, mVdotM real H rlen a m = mVdotM real H' rlen a c) /\
+    mString real H m = mString real H' c /\
+    mExportImport real H m = mExportImport real H' c /\
+    mIsSymmetric real H m = mIsSymmetric real H' c /\
+    mJSON real H m = mJSON real H' c /\
+    mIterate real H m 0 0 = mIterate real H' c 0 0 /\
+    (forall i j, in_range m i j -> mIterate real H m i j = mIterate real H' c i j) /\
+    (r <- mAsVector real H' c ;; ROk (fst r)) = read_all real H m.
+Proof. exact ProofsOpsView.op_on_view_equals_op_on_copy. Qed.
+Example op_on_view_nontrivial :
+  let H := [[1; 2; 3; 4; 5; 6; 7; 8; 9; 10; 11; 12]] in
+  let m := apply_views false (new_mat 0 3 4) [VSlice 0 3 1 4; VT; VSlice 1 3 0 2] in
+  wf_in H m /\ mROW false H m 1 = ROk [4; 8] /\ mJSON false H m = ROk [2; 2; 3; 7; 4; 8] /\
+  opt_of (r <- deep_copy false H m ;; mROW false (fst r) (snd r) 1) = Some [4; 8].
+Proof. cbv. repeat split; try discriminate; reflexivity. Qed.
+(* MdotM with both operands read through views (e.g. a slice times a transposed slice): every inner product the
+   loop computes equals the one over independent deep copies of the operands *)
+Theorem product_reads_through_views : forall real H (a b : mat), wf_in H a -> wf_in H b ->
+  exists Ha ca Hb cb, deep_copy real H a = ROk (Ha, ca) /\ deep_copy real Ha b = ROk (Hb, cb) /\
+    forall i j m1, dot real H a b i j m1 = dot real Hb ca cb i j m1.
+Proof. exact ProofsOpsView.product_reads_through_views. Qed.
+(* MarshalJSON and AsVector: what they return on every well-formed header / on whole-storage matrices *)
+Theorem json_and_asvector_decisions : forall real H (m : mat), wf_in H m ->
+  mJSON real H m = (l <- read_all real H m ;; ROk (d_rows m :: d_cols m :: l)) /\
+  (whole m -> (r <- mAsVector real H m ;; ROk (fst r)) = read_all real H m).
+Proof. intros real H m W. split; [exact (json_is_repacked real H m W) | exact (asvector_whole real H m W)]. Qed.
+
 (* ---- 7. Tip ---- *)
-Theorem tip_correct_upto16_partial : forall rows cols, 0 <= rows <= 16 -> 0 <= cols <= 16 -> tip_ok rows cols = true.
-(* partial: all shapes up to 16 x 16, storage holding the distinct entries 1..rows*cols (the algorithm only swaps
-   cells, its control flow does not read them); the lifting to arbitrary contents and unbounded shapes is not proved *)
-Proof. exact tip_correct_upto16_distinct. Qed.
+(* Tip on a matrix that owns its whole storage: dimensions exchanged, elements = those of the former T().
+   partial: proved for EVERY storage content (the algorithm is natural in the contents: tip_store_map) on all
+   shapes up to 24 x 24 (finite sweep inside Coq); the induction over the cycles for unbounded shapes is not
+   done.  The number theory it would rest on IS proved for every shape: tip_cycle_map_number_theory below. *)
+Theorem tip_correct_any_contents_upto24_partial : forall real rows cols s, 0 <= rows <= 24 -> 0 <= cols <= 24 ->
+  zlen s = rows * cols ->
+  let m := new_mat 0 rows cols in
+  exists s' m' l, mTip [s] m = ROk ([s'], m') /\ d_rows m' = cols /\ d_cols m' = rows /\ d_transposed m' = false /\
+    read_all real [s'] m' = ROk l /\ read_all real [s] (k_T real m) = ROk l.
+Proof. exact tip_correct_any_contents_upto24. Qed.
+Theorem tip_is_natural_in_contents : forall (f : Z -> Z) rows s,
+  tip_store rows (map f s) = Rmap (map f) (tip_store rows s).
+Proof. exact tip_store_map. Qed.
+(* the step k |-> rows*k mod (mn-1) of the cycle loop, for EVERY shape: it carries the row-major cell of (i,j)
+   to the row-major cell of (j,i) of the transposed layout; rows is coprime to mn-1; the map is injective on
+   [0, mn-1) with two-sided inverse k |-> cols*k mod (mn-1) and fixes 0, i.e. it permutes [1, mn-2] *)
+Theorem tip_cycle_map_number_theory : forall rows cols,
+  (forall i j, 0 <= i < rows -> 0 <= j < cols -> tip_next rows (rows * cols) (i * cols + j) = j * rows + i) /\
+  Znumtheory.rel_prime rows (rows * cols - 1) /\
+  (forall a b, 0 <= a < rows * cols - 1 -> 0 <= b < rows * cols - 1 ->
+     (rows * a) mod (rows * cols - 1) = (rows * b) mod (rows * cols - 1) -> a = b) /\
+  (forall k, 0 < rows * cols - 1 -> 0 <= k < rows * cols - 1 ->
+     (rows * ((cols * k) mod (rows * cols - 1))) mod (rows * cols - 1) = k /\
+     (cols * ((rows * k) mod (rows * cols - 1))) mod (rows * cols - 1) = k /\
+     0 <= (rows * k) mod (rows * cols - 1) < rows * cols - 1 /\
+     ((rows * k) mod (rows * cols - 1) = 0 <-> k = 0)).
+Proof.
+  intros rows cols. split; [exact (tip_next_transposes rows cols)|]. split; [exact (tip_rel_prime rows cols)|].
+  split; [exact (tip_map_injective rows cols) | exact (tip_map_inverse rows cols)].
+Qed.
+Example tip_nontrivial :
+  (r <- mTip [[1; 2; 3; 4; 5; 6]] (new_mat 0 2 3) ;; read_all false (fst r) (snd r)) = ROk [1; 4; 2; 5; 3; 6].
+Proof. reflexivity. Qed.
 (* Tip on a transposed matrix (any header, whole storage or window): nothing is moved and the matrix becomes
    exactly its former T() -- same header as T(), flag cleared, same elements (fix 2ffe99c; formerly F-TIP-T) *)
 Theorem tip_on_transposed_equals_former_T : forall real (H : heap) (m : mat), d_transposed m = true ->
@@ -213,8 +299,17 @@ Example tip_on_transposed_regression :
 Proof. exact tip_transposed_regression. Qed.
 
 (* ---- sparse storage: T() of a whole matrix is correct; the defects of views are refuted by witnesses ---- *)
-Theorem sparse_T_whole_upto8_partial : forall rows cols, 0 <= rows <= 8 -> 0 <= cols <= 8 -> sparse_T_ok rows cols = true.
-Proof. exact sparse_T_whole_upto8. Qed.
+(* T() of a sparse matrix that owns its whole storage, every shape, every content: dimensions exchanged and
+   element (i,j) of the result is element (j,i) of the receiver *)
+Theorem sparse_T_whole : forall real rows cols, 0 <= rows -> 0 <= cols -> forall P, zlen P = rows * cols ->
+  let v0 := mkSView (snew rows cols) (ident_cells (rows * cols)) true in
+  exists v, sT real P v0 = ROk v /\ sk_dims real (sv_hdr v) = (cols, rows) /\
+    forall i j, 0 <= i < cols -> 0 <= j < rows -> sAT real P v i j = sAT real P v0 j i.
+Proof. exact ProofsSparseT.sparse_T_whole. Qed.
+Example sparse_T_nontrivial :
+  (v <- sT false [1; 0; 3; 4; 5; 0] (mkSView (snew 2 3) (ident_cells 6) true) ;; sread_all false [1; 0; 3; 4; 5; 0] v)
+  = ROk [1; 4; 0; 5; 3; 0].
+Proof. reflexivity. Qed.
 Theorem sparse_iterator_leaves_view_refuted :
   let P := [1; 2; 3; 4; 5; 6; 7; 8; 9] in
   let v0 := mkSView (snew 3 3) (ident_cells 9) true in
